@@ -6,6 +6,7 @@
 
 mod bddrun;
 mod export;
+mod standalone;
 mod tt;
 
 use std::io::{BufWriter, Write};
@@ -56,6 +57,10 @@ fn main() {
         .unwrap_or_default();
     match domain.as_str() {
         "cfg" => bddrun::run_bdd(&lines, &bddrun::Opts { oracle, nvars }, &mut out),
+        "table" => standalone::run_table(&lines, oracle, &mut out),
+        "cache" | "kcache" => standalone::run_cache(&lines, oracle, &mut out),
+        "raw" => standalone::run_raw(&lines, oracle, &mut out),
+        "eda" => standalone::run_eda(&lines, oracle, &mut out),
         other => panic!("unknown domain {}", other),
     }
     out.flush().unwrap();
